@@ -362,3 +362,17 @@ def calls_through_helpers(res, fn, pred, depth: int = 0) -> List[ast.Call]:
         for c in calls_through_helpers(res, g, pred, depth + 1):
             out.append(subst(c, env))
     return out
+
+
+def seeks_through_get_offset(fn) -> bool:
+    """ProtocolResponse.seek: self._bytes.seek(X) where one alternative of X (conditional expression, local) is
+    <command>.get_offset(<the address parameter>)."""
+    local = single_assignments(fn.node)
+    param = fn.params[-1]
+    for n in walk_no_lambda(fn.node):
+        if isinstance(n, ast.Call) and (call_chain(n) or ())[-1:] == ("seek",) and len(n.args) == 1 and (call_chain(n) or ())[:2] == ("self", "_bytes"):
+            for a in alternatives(n.args[0], local):
+                if isinstance(a, ast.Call) and (call_chain(a) or ())[-1:] == ("get_offset",) and len(a.args) == 1 \
+                        and isinstance(a.args[0], ast.Name) and a.args[0].id == param and "command" in (call_chain(a) or ()):
+                    return True
+    return False
